@@ -51,6 +51,7 @@ class C17(ApiProp):
                 cases.append(mk_case(S, 0, [], [("WriteBytes", data[:v + 3]), ("PollRead", (), n, 0), ("Len",), ("PollRead", (7,), n, 1), ("Len",)], "dictionary", fam=20))
         for _ in range(3000 if tier == "quick" else 60000):
             size = rng.choice([1, 2, 3, 4, 5, 8, 16, 64])
+            ctor_code = rng.choice([0, 0, 0, 0, 0, 0, 4, 5, 5])   # 4 / 5 = new(), writes through poll_write_vectored with one slice / the same slice twice
             b = PyBuf(size, 0, [])
             ops = []
             for _ in range(rng.randrange(1, 12)):
@@ -79,7 +80,7 @@ class C17(ApiProp):
                 else:
                     op = rng.choice([("ReadAll",), ("Clear",), ("Len",), ("Readable",)]); b.apply(op)
                 ops.append(op)
-            cases.append(mk_case(size, 0, [], ops, "random", fam=20))
+            cases.append(mk_case(size, ctor_code, [], ops, "random", fam=20))
         return cases
 
     def check(self, case, trace, prof):
